@@ -1,7 +1,7 @@
 (* C02 - every runner request is answered exactly once; queue full => busy error at once; the scheduler drains.
    Theorems only. *)
 From Coq Require Import List ZArith NArith Bool Lia Arith.
-From V Require Import Sched.Lts Sched.Reach Sched.Examples.
+From V Require Import Sched.Lts Sched.Reach Sched.InvOwn Sched.Examples.
 Import ListNotations.
 
 (* A submit that finds the pending queue full is answered in the same step with the busy error, the request is
@@ -31,3 +31,14 @@ Example C02_queue_full_nonvacuous :
   exists s ev, run (mkC 1 fixes_on 1) (init_m 1) [LSubmit (sp 0 None); LSubmit (sp 1 None)] = Some (s, ev)
                /\ ev = [EReply 1 RBusy] /\ pendq s = [0].
 Proof. vm_compute. eexists; eexists; repeat split; reflexivity. Qed.
+
+(* In the event history of ANY run (any configuration, repaired or not, any interleaving) no request receives a
+   second reply - neither two runners, nor two errors, nor a runner and an error. *)
+Theorem C02_at_most_one_reply :
+  forall c m ls s ev q, run c (init_m m) ls = Some (s, ev) -> n_reply q ev <= 1.
+Proof. intros c m ls s ev q H. eapply at_most_one_reply. eapply run_Reach; eauto. Qed.
+Print Assumptions C02_at_most_one_reply.
+
+Example C02_at_most_one_reply_nonvacuous :
+  exists s ev, run cfg_on (init_m 1) ex_load_unload = Some (s, ev) /\ n_reply 0 ev = 1.
+Proof. vm_compute. eexists; eexists; split; reflexivity. Qed.
